@@ -255,6 +255,16 @@ def install(cfg):
         interp.ctx.events.append(("warn", a[0] if a else None))
         return None
 
+    import typing as _typing
+
+    @cfg.stub(_typing.cast)
+    def typing_cast(interp, typ, val):
+        return val
+
+    from cryptography.hazmat.primitives import serialization as _ser
+    cfg.class_hooks[_ser.NoEncryption] = lambda interp, *a, **k: Foreign("noencryption")
+    cfg.class_hooks[_ser.BestAvailableEncryption] = lambda interp, pw, *a, **k: Foreign("bestavailable", password=pw)
+
     @cfg.stub(copy.deepcopy)
     def deepcopy(interp, v, *a):
         return _deepcopy(interp, v)
